@@ -23,7 +23,7 @@ from simkit import core, env
 PROP = 'C19'
 WORKER = os.path.join(env.VERIF, 'checks', 'c19_worker.py')
 CHEAP = ['str', 'fmt_h', 'fmt_A', 'fmt_m', 'fmt_a', 'fmt_ns', 'fmt_nsh', 'fmt_nsm', 'fmt_nb', 'fmt_nz', 'fmt_nx', 'fmt_Ahm', 'atoms_order', 'chiral_morgan', 'smiles_atoms_order', 'sssr',
-         'atoms_rings_sizes', 'connected_components', 'linear_hash_set', 'morgan_hash_set', 'stereo_sets', 'labels', 'layout']
+         'atoms_rings_sizes', 'connected_components', 'linear_hash_set', 'morgan_hash_set', 'stereo_sets', 'labels', 'layout', 'mass']
 MEDIUM = ['linear_fingerprint', 'morgan_fingerprint', 'automorphism', 'self_sub', 'self_sub_all', 'scoped_sub', 'kekule', 'thiele',
           'canonicalize', 'neutralize', 'morgan_hash_smiles', 'morgan_smiles_hash', 'linear_hash_smiles', 'linear_smiles_hash', 'clean_stereo', 'clean_isotopes', 'implicify_hydrogens', 'explicify_hydrogens']
 EXPENSIVE = ['standardize', 'enumerate_kekule', 'enumerate_tautomers', 'canonicalize_log', 'standardize_log', 'neutralize_log',
